@@ -311,20 +311,28 @@ func aggregateRows(selectList sql.SelectList, groupBy []sql.ColumnReference, row
 		return emptyAggregateRow(selectList, rows)
 	}
 
-	// map columns to indexes on the select list
-	colToIdx := map[sql.ColumnReference]int{}
-	for idx, col := range selectList {
-		switch col := col.ValueExpressionPrimary.(type) {
-		case sql.ColumnReference:
-			colToIdx[col] = idx
+	// map GROUP BY columns to indexes on the select list. a GROUP BY column
+	// names a select column the way the parser accepted it: by name, by
+	// qualified name or by alias
+	groupByIdxs := make([]int, 0, len(groupBy))
+	for _, groupByCol := range groupBy {
+		idx := -1
+		for selectIdx, col := range selectList {
+			if col.Matches(groupByCol) {
+				idx = selectIdx
+				break
+			}
 		}
+		if idx < 0 {
+			return nil, fmt.Errorf("GROUP BY column %s must appear in the select list", groupByCol)
+		}
+		groupByIdxs = append(groupByIdxs, idx)
 	}
 
 	// generate keys for GROUP BY values
 	groupKey := func(row *storage.Row) string {
 		var key string
-		for _, groupByCol := range groupBy {
-			idx := colToIdx[groupByCol]
+		for _, idx := range groupByIdxs {
 			// %#v quotes strings, so the comma separated key is unambiguous
 			key += fmt.Sprintf("%#v,", row.Vals[idx])
 		}
